@@ -43,7 +43,9 @@ RULE = (
     "LambdaLR from a string lambda, StepLR, ExponentialLR, MultiStepLR, CosineAnnealingLR, LinearLR, PolynomialLR, ConstantLR, "
     "CosineAnnealingWarmRestarts) x 1-3 parameters of length 1-4 (dtype absent/float32/float64, nn.Parameter or tensor, written as "
     "tensor/full/dimension/ones/zeros, plain or behind an ExpTransform TransformedParameter, listed by id, as Parametric object or as param "
-    "groups with their own lr) x --dtype on the command line x target (Normal/Gamma joint with a hierarchical link, or a mean-field ELBO "
+    "groups with their own lr) x optionally K further parameters written once inside a Plate (range with any start, ${var} or * ids, Plate of Distributions with the parameter inline or Plate of "
+    "Parameters at the top level) x optionally both comment forms ('_' keys, objects with ignore=true) around and inside them x zeros_like / ones_like / full_like definitions "
+    "x --dtype on the command line x target (Normal/Gamma joint with a hierarchical link, or a mean-field ELBO "
     "with drawn sample count) x checkpoint name / frequency / checkpoint_all; or MCMC x a drawn operator set (Scaler, SlidingWindow, "
     "Dirichlet, HMC with diagonal or dense mass matrix) x adaptors (AdaptiveStepSize +-acceptance rate, DualAveragingStepSize, "
     "MassMatrixAdaptor +-regularize / swap_every / variance_window / restart) x weights, acceptance windows, disable_adaptation, dtype, logger; "
@@ -556,10 +558,17 @@ def run_main(argv, on_save=None, on_run=None, on_done=None):
 
 
 # =========================================================================== case -> configuration file
-def _pspec(id_, values, dtype=None, nn=False, form="tensor"):
+LIKE_FORMS = ("zeros_like", "ones_like", "full_like")
+
+
+def _pspec(id_, values, dtype=None, nn=False, form="tensor", like=None):
     d = {"id": id_, "type": "Parameter"}
     n = len(values)
-    if form == "full":
+    if form in LIKE_FORMS:
+        d[form] = like  # id of an already defined parameter that gives shape and dtype
+        if form == "full_like":
+            d["tensor"] = values[0]
+    elif form == "full":
         d["full"] = [n]
         d["tensor"] = values[0]
     elif form == "dimension":
@@ -591,6 +600,9 @@ def opt_config(c, iterations):
         kw = {} if elbo else {"dtype": p.get("dtype"), "nn": p.get("nn", False), "form": p.get("form", "tensor")}
         if elbo and p.get("dtype"):
             kw["dtype"] = p["dtype"]
+        if kw.get("form") in LIKE_FORMS:
+            kw["like"] = pid + ".like"
+            spec.append(_pspec(pid + ".like", [0.5] * len(p["values"]), dtype=p.get("like_dtype")))
         if p["kind"] == "pos":
             u = pid + ".unres"
             defined[pid] = {"id": pid, "type": "TransformedParameter", "transform": "torch.distributions.ExpTransform", "x": _pspec(u, p["values"], **kw)}
@@ -622,6 +634,11 @@ def opt_config(c, iterations):
         joint_list.append(prior)
         if jac:
             joint_list.append(pid)
+    pl = c.get("plate")
+    if pl and not elbo:
+        ids = _add_plate(pl, spec, joint_list, "Normal", {"loc": [pl["a"]], "scale": [pl["b"]]})
+        opt_ids += ids
+        par_ids += ids
     spec.append({"id": "joint", "type": "JointDistributionModel", "distributions": joint_list})
     loss = "joint"
     if elbo:
@@ -666,7 +683,59 @@ def opt_config(c, iterations):
         s.update(c["sched"]["args"])
         opt["scheduler"] = s
     spec.append(opt)
-    return spec
+    return _with_comments(spec) if c.get("comments") else spec
+
+
+def _add_plate(pl, spec, joint_list, distribution, parameters):
+    """K parameters w.<i> written once inside a Plate (expand_plates: 'range', ids ending in '*' or containing ${var}),
+    either a Plate of Distributions with the parameter inline, placed in the joint's list, or a Plate of Parameters
+    at the top level; returns the expanded ids"""
+    lo = pl.get("start", 0)
+    idx = list(range(lo, lo + pl["k"]))
+    tok = "${%s}" % pl["var"] if pl["syntax"] == "var" else "*"
+    par = _pspec("w." + tok, pl["values"], dtype=pl.get("dtype"), nn=pl.get("nn", False), form=pl.get("form", "tensor"))
+    plate = {"type": pl.get("type", "Plate"), "range": "%d:%d" % (lo, lo + pl["k"])}
+    if pl["syntax"] == "var":
+        plate["var"] = pl["var"]
+    if pl["where"] == "dist":
+        plate["object"] = _dist("prior.w." + tok, distribution, par, parameters)
+        joint_list.append(plate)
+    else:
+        plate["object"] = par
+        spec.append(plate)
+        for i in idx:
+            joint_list.append(_dist("prior.w.%d" % i, distribution, "w.%d" % i, parameters))
+    return ["w.%d" % i for i in idx]
+
+
+def _with_comments(spec):
+    """the same analysis with the two comment forms of remove_comments sprinkled over it: keys starting with '_' and
+    objects carrying "ignore": true (list elements and dict values), also inside and next to a Plate"""
+    import copy
+
+    spec = copy.deepcopy(spec)
+
+    def walk(x):
+        if isinstance(x, dict):
+            for v in list(x.values()):
+                walk(v)
+            if x.get("type") in ("Parameter", "Distribution", "JointDistributionModel", "Optimizer", "MCMC", "Plate", "torchtree.Plate"):
+                x["_comment"] = "generated by vt.props.c17"
+            if x.get("type") in ("Optimizer", "MCMC"):
+                x["alternative"] = {"ignore": True, "id": "unused", "type": "Parameter", "tensor": [1.0]}
+        elif isinstance(x, list):
+            for v in x:
+                walk(v)
+            if any(isinstance(v, dict) and str(v.get("type", "")).endswith(("Distribution", "Plate")) for v in x):
+                x.insert(0, {"id": "ignored", "type": "Distribution", "ignore": True, "distribution": "torch.distributions.Normal",
+                             "x": {"id": "p0", "type": "Parameter", "tensor": [123.0]}, "parameters": {"loc": [0.0], "scale": [1.0]}})
+
+    walk(spec)
+    out = [{"id": "w.0", "type": "Parameter", "tensor": [77.0], "ignore": True}]
+    for el in spec:
+        out.append(el)
+        out.append({"ignore": True, "_why": "a disabled block between two objects"})
+    return out
 
 
 def ck_file(c, epoch):
@@ -772,6 +841,11 @@ def mcmc_config(c, iterations):
             if o.get("frs"):
                 base["find_reasonable_step_size"] = True
         ops.append(base)
+    pl = c.get("plate")
+    if pl:
+        ids = _add_plate(dict(pl, dtype=dt, nn=False), spec, dists, "Normal", {"loc": [pl["a"]], "scale": [pl["b"]]})
+        ops.append({"id": "opw", "type": "SlidingWindowOperator", "parameters": ids, "weight": 1.0, "width": 0.5, "acceptance_window_length": 5})
+        logged += ids
     spec.append({"id": "joint", "type": "JointDistributionModel", "distributions": dists})
     m = {"id": "mcmc", "type": "MCMC", "joint": "joint", "iterations": iterations, "operators": ops, "checkpoint_frequency": c["f"], "every": c.get("every", 0)}
     ck = c.get("ckname")
@@ -780,7 +854,7 @@ def mcmc_config(c, iterations):
     if c.get("logger"):
         m["loggers"] = [{"id": "log", "type": "Logger", "parameters": ["joint"] + logged, "file_name": "samples.csv", "every": 1}]
     spec.append(m)
-    return spec
+    return _with_comments(spec) if c.get("comments") else spec
 
 
 def config_of(c, iterations):
@@ -803,12 +877,17 @@ def tags_of(c):
     if c["alg"] == "stages":
         return {"alg": "stages", "stage_kinds": [st_["alg"] for st_ in c["stages"]], "n_files": len(c["files"])}
     if c["alg"] == "opt":
-        return {"alg": "Optimizer", "optim": c["optim"]["name"], "sched": (c.get("sched") or {}).get("name", "none"), "target": c["target"]}
+        default = c.get("argv_dtype") or "float64"
+        # a parameter written as zeros_like / ones_like / full_like takes its dtype from the referenced parameter at construction
+        lossy = c["target"] != "elbo" and any(p.get("form") in LIKE_FORMS and (p.get("like_dtype") or default) != (p.get("dtype") or default) for p in c["params"])
+        return {"alg": "Optimizer", "optim": c["optim"]["name"], "sched": (c.get("sched") or {}).get("name", "none"), "target": c["target"],
+                "plate": (c.get("plate") or {}).get("syntax", "none") if c["target"] != "elbo" else "none", "like_dtype_from_reference": lossy,
+                "forms": sorted({p.get("form", "tensor") for p in c["params"]})}
     ops = sorted({o["type"] for o in c["ops"]})
     ads = sorted({a["type"] for o in c["ops"] if o["type"] == "hmc" for a in o["adaptors"]})
     default = c.get("argv_dtype") or "float64"
     return {"alg": "MCMC", "operators": ops, "adaptors": ads or ["none"], "mixed_dtype": (c.get("dtype") or default) != default,
-            "find_reasonable_step_size": any(o.get("frs") for o in c["ops"])}
+            "find_reasonable_step_size": any(o.get("frs") for o in c["ops"]), "plate": (c.get("plate") or {}).get("syntax", "none")}
 
 
 def key_of(c, sub):
@@ -840,6 +919,16 @@ def nontrivial(c, need_continue):
     return False
 
 
+def _plate_labels(c):
+    out = []
+    pl = c.get("plate")
+    if pl and c.get("target") != "elbo":
+        out += ["plate=" + pl["syntax"], "plate_of=" + ("distributions" if pl["where"] == "dist" else "parameters")]
+    if c.get("comments"):
+        out.append("comments")
+    return out
+
+
 def labels_of(c):
     if c["alg"] == "stages":
         fl_ = c["files"]
@@ -849,8 +938,9 @@ def labels_of(c):
         dts = sorted({p.get("dtype") or "default" for p in c["params"]})
         return ("opt", "optim=" + c["optim"]["name"], "sched=" + (c.get("sched") or {}).get("name", "none"), "target=" + c["target"],
                 "argv_dtype=%s" % (c.get("argv_dtype") or "default"), "nn" if any(p.get("nn") for p in c["params"]) else "tensor",
-                "pstyle=" + c.get("pstyle", "ids"), "ckall" if c.get("ckall") else "single", *("dtype=" + d for d in dts))
-    labs = ["mcmc", "dtype=%s/%s" % (c.get("dtype") or "default", c.get("argv_dtype") or "default")]
+                "pstyle=" + c.get("pstyle", "ids"), "ckall" if c.get("ckall") else "single", *("dtype=" + d for d in dts),
+                *("form=" + f for f in sorted({p.get("form", "tensor") for p in c["params"]} & set(LIKE_FORMS))), *_plate_labels(c))
+    labs = ["mcmc", "dtype=%s/%s" % (c.get("dtype") or "default", c.get("argv_dtype") or "default"), *_plate_labels(c)]
     for o in c["ops"]:
         labs.append("op=" + o["type"])
         if o["type"] == "hmc":
@@ -1388,6 +1478,17 @@ def _epochs(draw, c, continue_, nmax=6, extra=5):
     c["T"] = N + (draw(st.integers(1, extra)) if continue_ else draw(st.integers(0, 2)))
 
 
+def _plate(draw, dtype):
+    n = draw(st.integers(1, 3))
+    v = round(draw(fl(-1.5, 1.5)), 3)
+    form = draw(st.sampled_from(["tensor", "tensor", "full", "zeros"]))
+    vals = [0.0] * n if form == "zeros" else [v] * n if form == "full" else [round(v + 0.25 * k, 3) for k in range(n)]
+    return {"k": draw(st.integers(1, 4)), "start": draw(st.sampled_from([0, 0, 1, 3])), "syntax": draw(st.sampled_from(["var", "star"])),
+            "var": draw(st.sampled_from(["i", "k", "idx"])), "where": draw(st.sampled_from(["dist", "dist", "top"])),
+            "type": draw(st.sampled_from(["Plate", "torchtree.Plate"])), "values": vals, "form": form, "dtype": dtype, "nn": draw(st.booleans()),
+            "a": round(draw(fl(0.5, 3.0)), 2), "b": round(draw(fl(0.5, 3.0)), 2)}
+
+
 @st.composite
 def opt_cases(draw, continue_=False, optim=None, sched="draw"):
     c = {"alg": "opt", "torch_seed": draw(st.integers(0, 2**31 - 1)), "argv_dtype": draw(st.sampled_from([None, None, "float64", "float32"]))}
@@ -1404,22 +1505,30 @@ def opt_cases(draw, continue_=False, optim=None, sched="draw"):
     for _ in range(draw(st.integers(1, 3))):
         kind = draw(st.sampled_from(["real", "real", "pos"]))
         n = draw(st.integers(1, 4))
-        form = draw(st.sampled_from(["tensor", "tensor", "tensor", "full", "dimension", "zeros" if kind == "real" or c["target"] == "elbo" else "ones", "ones"]))
+        form = draw(st.sampled_from(["tensor", "tensor", "tensor", "full", "dimension", "zeros" if kind == "real" or c["target"] == "elbo" else "ones", "ones"]
+                                    + ([] if c["target"] == "elbo" else ["zeros_like", "ones_like", "full_like"])))
         vals = [round(draw(fl(-1.5, 1.5)), 3) for _ in range(n)]
-        if form in ("full", "dimension"):
+        if form in ("full", "dimension", "full_like"):
             vals = [vals[0]] * n
-        elif form == "ones":
+        elif form in ("ones", "ones_like"):
             vals = [1.0] * n
-        elif form == "zeros":
+        elif form in ("zeros", "zeros_like"):
             vals = [0.0] * n
         p = {"kind": kind, "values": vals, "form": form, "dtype": draw(st.sampled_from([None, None, "float32", "float64"])), "nn": draw(st.booleans()),
              "a": round(draw(fl(0.5, 3.0)), 2), "b": round(draw(fl(0.5, 3.0)), 2)}
         if c["target"] == "elbo":
             p["qs"] = round(draw(fl(-2.0, 0.0)), 2)
+        if form in LIKE_FORMS:
+            # shape and dtype come from the referenced parameter; an own dtype key, when present, agrees with it
+            p["like_dtype"] = draw(st.sampled_from([None, "float32", "float64"]))
+            p["dtype"] = draw(st.sampled_from([None, p["like_dtype"]]))
         if name == "LBFGS" and ps:
             p["dtype"] = ps[0]["dtype"]  # see ASSUMPTIONS (one flat history for all parameters)
         ps.append(p)
     c["params"] = ps
+    if draw(st.integers(0, 2)) == 0 and c["target"] != "elbo":
+        c["plate"] = _plate(draw, ps[0]["dtype"] if name == "LBFGS" else draw(st.sampled_from([None, None, "float32", "float64"])))
+    c["comments"] = draw(st.integers(0, 3)) == 0
     # (a parameter of a prior that is itself sampled by q is DESIGN section 8 #25, C10's subject: no link under the ELBO)
     c["couple"] = draw(st.booleans()) and c["target"] == "joint"
     c["pstyle"] = draw(st.sampled_from(["ids", "ids", "parametric", "groups"])) if name != "LBFGS" else draw(st.sampled_from(["ids", "parametric"]))
@@ -1505,6 +1614,9 @@ def mcmc_cases(draw, continue_=False, adaptors="draw", need_hmc=False, mass=None
                 o["frs"] = True
         ops.append(o)
     c["ops"] = ops
+    if draw(st.integers(0, 2)) == 0:
+        c["plate"] = _plate(draw, None)
+    c["comments"] = draw(st.integers(0, 3)) == 0
     c["ckname"] = draw(st.sampled_from([None, None, True, "state.json"]))
     c["logger"] = draw(st.integers(0, 3)) == 0
     c["every"] = draw(st.sampled_from([0, 0, 1, 100]))
@@ -1520,6 +1632,7 @@ def staged_cases(draw):
     stages = []
     for i in range(n):
         cs = draw(st.one_of(opt_cases(True), mcmc_cases(True)))
+        cs.pop("plate", None)  # references to expanded plate ids are written out (w.0, w.1): not prefixed by _prefixed
         if cs["alg"] == "mcmc":
             # one tree per configuration would need unique taxon names: the GMRF block operator stays in the single-stage sub-checks
             cs["ops"] = [o for o in cs["ops"] if o["type"] != "gmrf"][:3] or [{"type": "slide", "weight": 1.0, "disable": False, "awl": 3, "values": [0.1], "tuning": 0.5}]
